@@ -1887,6 +1887,16 @@ class unyt_array(np.ndarray):
             else:
                 out = out[0]
                 if out.dtype.kind in ("u", "i"):
+                    # the buffer is reinterpreted as floats below: an operand that is
+                    # another view of the same memory has to be read before that
+                    inputs = tuple(
+                        i.copy()
+                        if isinstance(i, np.ndarray)
+                        and i is not out
+                        and np.may_share_memory(i, out)
+                        else i
+                        for i in inputs
+                    )
                     new_dtype = "f" + str(out.dtype.itemsize)
                     float_values = out.astype(new_dtype)
                     out.dtype = new_dtype
